@@ -3,8 +3,9 @@
    Z / positive / N / nat stay as extracted inductives. *)
 From Coq Require Extraction.
 From Coq Require Import ExtrOcamlBasic.
-From LZ4V Require Import Base GenXXH GenBlock GenStream GenLz4 XXH32.
+From LZ4V Require Import Base GenXXH GenBlock GenStream GenLz4 XXH32 BlockFormat BlockExec DecodePortable DecodeAsm.
 
 Extraction "model.ml"
   Z.add Z.mul Z.sub Z.div Z.modulo Z.of_nat Z.to_nat Z.eqb Z.ltb Z.leb
-  checksum_zero xxh32_ref xzero xwrite xsum32_g mkx.
+  checksum_zero xxh32_ref xzero xwrite xsum32_g mkx
+  spec_decode spec_decode_x encode parse_block strict decode_portable decode_asm.
